@@ -247,7 +247,13 @@ pub fn zt(id: u16) {
     log::log(K::Call, id, &enc64(fnv(n.as_bytes())));
 }
 pub fn zn(id: u16, name: &str) {
-    log::log(K::Call, id, &enc64(fnv(name.as_bytes())));
+    // expected names are written relative to a caller called "main"; the reference may run on a differently named thread
+    let caller = std::thread::current().name().map(|s| s.to_owned()).unwrap_or_else(|| "main".into());
+    let actual = match name.strip_prefix("main") {
+        Some(rest) => format!("{}{}", caller, rest),
+        None => name.to_string(),
+    };
+    log::log(K::Call, id, &enc64(fnv(actual.as_bytes())));
 }
 /// Rendezvous of the branches of a nested thread-spawning macro: returns 0 once `parties` callers of the same group are
 /// inside at the same time, 1000 if that does not happen within 30 s (the branches were not alive together). Groups are
@@ -328,6 +334,12 @@ enum Res {
     Val(String),
     Panic(String),
 }
+/// The same on a fresh thread with the given name (the same call sites, executed by a differently named caller).
+fn run_one_on(name: &str, f: fn() -> String) -> (Res, Vec<Ev>) {
+    let h = std::thread::Builder::new().name(name.to_string()).spawn(move || run_one(f)).expect("spawn");
+    h.join().unwrap_or_else(|e| (Res::Panic(crate::exec::panic_msg(e)), Vec::new()))
+}
+
 fn run_one(f: fn() -> String) -> (Res, Vec<Ev>) {
     log::new_epoch();
     log::clear();
@@ -451,6 +463,22 @@ pub fn main(twins: &'static [Twin]) {
             }
             if rv != mv {
                 msgs.push(format!("value differs: macro {:?}, reference {:?}", mv, rv));
+            }
+            if has("nest") && t.tags.contains("spawn") && matches!(prop.as_str(), "C17" | "C08") {
+                // the same call sites again, executed by a differently named thread: inherited thread names follow the caller
+                plan::install(t.max_id, &p);
+                let (rv2, rl2) = run_one_on("alt7", t.r);
+                plan::install(t.max_id, &p);
+                let (mv2, ml2) = run_one_on("alt7", t.m);
+                runs += 1;
+                *cover.entry("nested_spawn_programs_run_again_from_a_differently_named_thread".to_string()).or_insert(0) += 1;
+                if rv2 != mv2 {
+                    msgs.push(format!("second run (caller thread alt7): value differs: macro {:?}, reference {:?}", mv2, rv2));
+                }
+                let (pm2, pr2) = (per_branch(t, &ml2, false), per_branch(t, &rl2, false));
+                if pm2 != pr2 {
+                    msgs.push("second run of the same call sites from a thread named alt7: the thread names seen by the innermost branches differ from <caller>_join_<i>..".to_string());
+                }
             }
             let with_caps = prop == "C11";
             let (pm, pr) = (per_branch(t, &ml, with_caps), per_branch(t, &rl, with_caps));
